@@ -21,6 +21,16 @@ def cases(ctx, n):
         level = rnd.choice([1, 1, 1, 2])
         out.append(dict(i=n + 100000 + j, fam='chunk-straddle', data=gen.chunk_straddle(rnd, level), level=level, ultra=rnd.random() < 0.8,
                         w1=rnd.choice([1, 2, 4]), w2=rnd.choice([1, 2]), env1={}, env2={}, feed=None))
+    for c in out:
+        # small inputs: suspend the run-length emitter everywhere on the way back (H2 output granule)
+        if c['data'] is not None and len(c['data']) <= 60000 and rnd.random() < 0.5:
+            c['env2'] = dict(c['env2'], LBZIP2_VERIF_OUT_GRANUL=str(rnd.choice([1, 2, 3, 4, 5, 7, 255, 259, 4096])))
+    for j in range(6 if ctx.quick() else 120):
+        # --sequential blocks that decode to more than the 900000-byte output buffer, with long runs
+        pre = rnd.randbytes(rnd.randint(0, 600))
+        body = bytes([rnd.randrange(256)]) * rnd.choice([1000000, 1800001, 2700000])
+        out.append(dict(i=n + 200000 + j, fam='big-expansion', data=pre + body + rnd.randbytes(rnd.randint(0, 50)), level=rnd.choice([1, 5, 9]),
+                        ultra=True, w1=rnd.choice([1, 2, 4]), w2=rnd.choice([1, 2, 4]), env1={}, env2={}, feed=None))
     if not ctx.quick():
         files = gen.suite_corpus()
         for j, p in enumerate(files):
